@@ -58,6 +58,11 @@ class Ref:
         self.winner_of = {}      # (consumer, pname) -> candidate
         self.rec_iters = {}      # dest -> iterations done
         self.must_nodes = set()
+        self.tried = []          # candidates evaluated
+        self.losers = {}         # one-of consumer -> losing candidates
+        self.ctx = []            # stack of candidate ids being evaluated
+        self.dyn = set()         # dynamic hostile-family tags (facts about program x input)
+        self.fail_ctx = {}       # failed node -> set of candidate contexts it was demanded from
 
     # -- structure -----------------------------------------------------------------------
     def dep_nodes(self, nid, resolved_only=False):
@@ -140,8 +145,19 @@ class Ref:
             if node in seen:
                 e.must = True
 
+    def _note_fail_ctx(self, nid):
+        c = tuple(self.ctx)
+        seen = self.fail_ctx.setdefault(nid, set())
+        if seen and c not in seen and (c or any(seen)):
+            # the same failing node is demanded from a candidate scope and from another scope
+            if any(len(x) != len(c) or x != c for x in seen):
+                self.dyn.add('cand_fail_shared')
+        seen.add(c)
+
     def eval_node(self, nid):
         if nid in self.memo:
+            if self.memo[nid][0] == 'fail':
+                self._note_fail_ctx(nid)
             return self.memo[nid]
         node = self.nodes[nid]
         kwargs = {}
@@ -163,6 +179,8 @@ class Ref:
         else:
             res = self.invoke(nid, kwargs)
         self.memo[nid] = res
+        if res[0] == 'fail':
+            self._note_fail_ctx(nid)
         return res
 
     def eval_mark(self, consumer, idx, pname, m, used):
@@ -175,6 +193,8 @@ class Ref:
             used.append(decider)
             d = self.eval_node(decider)
             if d[0] != 'ok':
+                if self.ctx:
+                    self.dyn.add('cand_fail_via_switch')
                 return self._as_arg(d)
             label = d[1]
             for lab, c in cases:
@@ -185,11 +205,23 @@ class Ref:
                 if hit:
                     used.append(c)
                     self.label_of[(consumer, pname)] = (lab, c)
-                    return self._as_arg(self.eval_node(c))
+                    o = self._as_arg(self.eval_node(c))
+                    if o[0] == 'fail' and self.ctx:
+                        self.dyn.add('cand_fail_via_switch')
+                    return o
+            if self.ctx:
+                self.dyn.add('cand_fail_via_switch')
             return ('fail', frozenset({('badlabel', consumer, pname)}))
         if k == 'oneof':
             for c in m[1]:
-                o = self.eval_node(c)
+                self.tried.append(c)
+                self.ctx.append(c)
+                try:
+                    o = self.eval_node(c)
+                finally:
+                    self.ctx.pop()
+                if o[0] != 'ok':
+                    self.losers.setdefault(consumer, []).append(c)
                 if o[0] == 'ok':
                     used.append(c)
                     self.winner_of[(consumer, pname)] = c
@@ -198,7 +230,10 @@ class Ref:
         if k == 'rec':
             _, start, dest, mx = m
             used.append(dest)
-            return self.eval_rec(start, dest, mx)
+            o = self.eval_rec(start, dest, mx)
+            if o[0] == 'fail' and self.ctx:
+                self.dyn.add('cand_fail_in_rec')
+            return o
         raise ValueError(k)
 
     @staticmethod
@@ -285,9 +320,27 @@ class Ref:
         return out
 
 
+def _anc(prog_nodes, r, nid):
+    seen = set()
+    st = [nid]
+    while st:
+        n = st.pop()
+        for d in r.dep_nodes(n):
+            if d not in seen:
+                seen.add(d)
+                st.append(d)
+    return seen
+
+
 def evaluate(prog, run, val, extra_kwargs=None):
     r = Ref(prog, run, val, extra_kwargs)
     r.run_program()
+    if r.losers:
+        for c in r.tried:
+            a = _anc(prog['nodes'], r, c)
+            if any(cons in a for cons in r.losers):
+                r.dyn.add('cand_after_losing_oneof')
+                break
     if not hasattr(r, 'must_nodes'):
         r.must_nodes = set()
     return r
